@@ -304,7 +304,8 @@ class BaseFileLock(abc.ABC):
         self._lock_counter = max(0, self._lock_counter - 1)
 
     def __enter__(self: FileLockT) -> FileLockT:
-        self.acquire()
+        if not self.acquire():
+            raise TimeoutError("Failed to acquire file lock:", self._lock_file)
         return self
 
     def __exit__(self, *_exc: Any) -> None:
